@@ -71,4 +71,9 @@ def minWith (a b : Rat) : Rat := if b < a then b else a
 def maxWithNat (a b : Nat) : Nat := if b > a then b else a
 def minWithNat (a b : Nat) : Nat := if b < a then b else a
 
+/-- `iter.map(f)` with a closure `f` that mutates a captured cell: a state-passing map -/
+def mapSt {σ α β : Type} (f : σ → α → σ × β) (s : σ) : List α → List β
+  | [] => []
+  | x :: xs => let p := f s x; p.2 :: mapSt f p.1 xs
+
 end Tv.Gen
